@@ -37,6 +37,8 @@ int g_mode_recover; ldb_memtable_t g_rmem_obj; unsigned g_rmem_unrefs; unsigned 
 /* ---------------------------------------------------------- thread model */
 void ldb_mutex_lock(ldb_mutex_t *m) { __CPROVER_assert(m == &g_db->mutex && !g_held, "lock: DB mutex not held"); g_held = 1; g_locks++; }
 void ldb_mutex_unlock(ldb_mutex_t *m) { __CPROVER_assert(m == &g_db->mutex && g_held, "unlock: DB mutex held"); g_held = 0; g_unlocks++; }
+unsigned g_signals;
+void ldb_cond_signal(ldb_cond_t *cv) { g_signals++; }   /* wakes ONE waiter only: never enough for the background signal, which several threads wait on */
 void ldb_cond_broadcast(ldb_cond_t *cv) { __CPROVER_assert(cv == &g_db->background_work_finished_signal && g_held, "broadcast on the background signal, under the mutex"); g_broadcasts++; }
 void ldb_pool_schedule(ldb_pool_t *pool, ldb_work_f *func, void *arg) { __CPROVER_assert(g_held && arg == g_db, "background work scheduled under the mutex"); g_sched_calls++; }
 int ldb_versions_needs_compaction(const ldb_versions_t *vset) { return g_needs_compaction; }
